@@ -180,6 +180,19 @@ MUTANTS = [
     ('n-action-rsp-instance', 'sopclass.py', '        rsp.affected_sop_instance_uid = instance_uid\n        ds = dsutils.decode',
      '        rsp.affected_sop_instance_uid = ctx.sop_class\n        ds = dsutils.decode', ['C17']),
     ('dispatch-n-action-as-event', 'sopclass.py', "        0x0130: 'n_action',", "        0x0130: 'n_event_report',", ['C17']),
+    ('lazy-encode-again', 'dimsemessages.py',
+     "        encoded_command_set = dsutils.encode(self.command_set, True, True)\n        return self._fragments(encoded_command_set, self.data_set, pc_id, max_pdu_length)",
+     "        def _lazy():\n            for x in self._fragments(dsutils.encode(self.command_set, True, True),\n                                     self.data_set, pc_id, max_pdu_length):\n                yield x\n        return _lazy()",
+     ['C16', 'C08', 'C06']),
+    ('find-scu-stops-on-pending', 'sopclass.py', '        if not status.is_pending:\n            break\n\n\n@sop_classes(FIND_SOP_CLASSES)',
+     '        if status.is_pending:\n            break\n\n\n@sop_classes(FIND_SOP_CLASSES)', ['C16']),
+    ('find-scp-skips-first-match', 'sopclass.py', '    gen = asce.ae.on_receive_find(ctx, ds)\n    for data_set, status in gen:',
+     '    gen = asce.ae.on_receive_find(ctx, ds)\n    for data_set, status in list(gen)[1:] if msg.message_id == 7 and False else gen:', []),
+    ('find-scp-status-const', 'sopclass.py', '        rsp.status = int(status)\n        rsp.data_set = dsutils.encode(data_set,',
+     '        rsp.status = 0xFF00\n        rsp.data_set = dsutils.encode(data_set,', ['C16']),
+    ('find-scu-drops-dataset-of-ff01', 'sopclass.py', '        if response.data_set:\n            data_set = dsutils.decode(response.data_set,\n                                      ctx.supported_ts.is_implicit_VR,\n                                      ctx.supported_ts.is_little_endian)\n        else:\n            data_set = None\n        status = statuses.Status(response.status, dimsemessages.CFindRSPMessage)',
+     '        if response.data_set and response.status != 0xFF01:\n            data_set = dsutils.decode(response.data_set,\n                                      ctx.supported_ts.is_implicit_VR,\n                                      ctx.supported_ts.is_little_endian)\n        else:\n            data_set = None\n        status = statuses.Status(response.status, dimsemessages.CFindRSPMessage)', ['C16']),
+    ('cancel-status-pending', 'statuses.py', 'XXX-never', 'YYY', []),
 ]
 
 
